@@ -68,7 +68,9 @@ HEADER = M.HEADER
 MODEL_TARGETS = M.MODEL_TARGETS
 SHARD = 60
 STYPES = ["numerical", "categorical", "multicategorical", "sequence_numerical", "timestamp", "embedding"]
-RULE = ("(+ embedding-family frames: 1-3 plain embedding columns next to text_/image_embedded columns with stub "
+RULE = ("(+ large frames of 255 / 256 / 257 / 300 / 513 / 1025 rows with row-id payloads; + boundaries: one-row frames, "
+        "a time format matching no / exactly one cell, columns missing but for one cell, embedding width 1, tied "
+        "categories under every labelling) (+ embedding-family frames: 1-3 plain embedding columns next to text_/image_embedded columns with stub "
         "embedders, every cell read by name through col_names_dict and get_col_feat) (+ histories: a sibling frame encoded with the statistics of an earlier dataset, integer-coded categorical "
         "columns held as int64 / float64-with-NaN / object independently on both sides, via materialize(col_stats=) "
         "and via the fitted converter) DataFrames of 1-10 rows with 1-7 columns drawn from six stypes (+ numerical/categorical target), "
@@ -249,6 +251,56 @@ def gen_family(rng):
             "col_order": order, "family": True}
 
 
+LARGE_ROWS = [255, 256, 257, 300, 513, 1025]
+
+
+def gen_large(rng, n):
+    """Row counts at and beyond typical batch boundaries.  Cheap stypes only; every payload is a row id (embedding
+    vectors, numerical values) or cycles with a period coprime to the batch sizes, so any row that receives another
+    row's data is visible; the text_embedded stub works in batches of k with more than two chunks."""
+    w = rng.pick([1, 2, 4])
+    emb = {"name": "emb", "stype": "embedding", "dtype": "object", "sep": None, "fmt": None, "width": w,
+           "cells": [[(i % 997) / 8.0 - 60.0] + [float((i * (j + 3)) % 251) for j in range(w - 1)] for i in range(n)]}
+    num = {"name": "num", "stype": "numerical", "dtype": "float", "sep": None, "fmt": None, "width": None,
+           "cells": [None if i % 89 == 7 else i / 8.0 for i in range(n)]}
+    pool = ["a", "b", "c", "dd", "é"]
+    cat = {"name": "cat", "stype": "categorical", "dtype": rng.pick(["object", "str"]), "sep": None, "fmt": None,
+           "width": None, "nan_kind": "none", "cells": [None if i % 97 == 5 else pool[(i * i + i // 7) % 5] for i in range(n)]}
+    txt = {"name": "Txt", "stype": "text_embedded", "dtype": "object", "sep": None, "fmt": None, "width": None,
+           "nan_kind": "none", "batch_size": rng.pick([100, 64, 127]),
+           "cells": [None if i % 101 == 3 else f"r{i}" for i in range(n)]}
+    cols = [emb, num, cat, txt]
+    target = None
+    if rng.chance(0.5):
+        cols.append({"name": "y", "stype": "numerical", "dtype": "float", "sep": None, "fmt": None, "width": None,
+                     "cells": [float(i % 11) for i in range(n)]})
+        target = "y"
+    order = [c["name"] for c in cols]
+    rng.shuffle(order)
+    return {"n": n, "index": rng.pick(["range", "offset", "perm", "string", "dup"]), "cols": cols, "target": target,
+            "col_order": order, "large": True}
+
+
+def boundary(case, rng):
+    """Deliberate boundaries of the quantified dimensions (each at a low rate): a column that is entirely missing
+    except one cell; a configured time format that matches NO cell / exactly ONE cell of its column."""
+    for col in case["cols"]:
+        if col["name"] == case["target"] or case["n"] < 2:
+            continue
+        r = rng.random()
+        if col["stype"] == "timestamp" and col["fmt"] not in (None, "datetime64") and r < 0.12:
+            keep = rng.randrange(case["n"]) if r < 0.06 else None
+            col["cells"] = [c if (i == keep and c is not None) else "garbage" for i, c in enumerate(col["cells"])]
+            col["boundary"] = "format-matches-one" if keep is not None and col["cells"][keep] != "garbage" else "format-matches-none"
+        elif col["stype"] in ("numerical", "categorical", "multicategorical", "sequence_numerical", "timestamp") and r > 0.95:
+            live = [i for i, c in enumerate(col["cells"]) if c is not None and c != "garbage"]
+            if live:
+                keep = rng.pick(live)
+                col["cells"] = [c if i == keep else None for i, c in enumerate(col["cells"])]
+                col["boundary"] = "all-missing-but-one"
+    return case
+
+
 INT_DTYPES = ["int64", "float64", "object"]
 
 
@@ -366,8 +418,9 @@ def with_forms(case, rng):
 
 def generate(rng, tier):
     n = 420 if tier == "quick" else 6000
-    cases = [with_forms(vary(unlabel(G.gen_frame(rng, stypes=STYPES, target_missing=0.3), rng), rng), rng)
+    cases = [with_forms(boundary(vary(unlabel(G.gen_frame(rng, stypes=STYPES, target_missing=0.3), rng), rng), rng), rng)
              for _ in range(n)]
+    cases += [with_forms(gen_large(rng, r), rng) for r in (LARGE_ROWS if tier == "quick" else LARGE_ROWS * 4)]
     cases += [gen_malformed(rng) for _ in range(n // 40)]
     cases += [gen_sibling(rng) for _ in range(n // 10)]
     cases += [with_forms(gen_family(rng), rng) for _ in range(n // 8)]
@@ -693,6 +746,24 @@ def stats(cases, obss):
                 d["raised"] += 1
             continue
         M.count_forms(d, (o or {}).get("used"))
+        if c.get("large"):
+            d.setdefault("large_rows", {})
+            d["large_rows"][str(c["n"])] = d["large_rows"].get(str(c["n"]), 0) + 1
+        b = d.setdefault("boundaries", {})
+        if c["n"] == 1:
+            b["one-row-frame"] = b.get("one-row-frame", 0) + 1
+        for col in c["cols"]:
+            if col.get("boundary"):
+                b[col["boundary"]] = b.get(col["boundary"], 0) + 1
+            if col["stype"] == "embedding" and col.get("width") == 1:
+                b["embedding-width-1"] = b.get("embedding-width-1", 0) + 1
+            if col["stype"] == "categorical":
+                from collections import Counter
+                cnt = sorted(Counter(str(v) for v in col["cells"] if v is not None).values(), reverse=True)
+                if len(cnt) >= 2 and cnt[0] == cnt[1]:
+                    b["tied-categories/" + c["index"]] = b.get("tied-categories/" + c["index"], 0) + 1
+            if c["index"] == "dup" and c["n"] >= 2 and any(v is None for v in col["cells"]):
+                b["dup-labels-with-missing-cells"] = b.get("dup-labels-with-missing-cells", 0) + 1
         if (o or {}).get("direct"):
             d["direct_mapper_calls"] = d.get("direct_mapper_calls", 0) + len(o["direct"])
         if "reloaded" in (o or {}):
@@ -774,6 +845,8 @@ def coq_term(case, obs):
         idx = M.plist(range(len(secs)), lambda i: "tt")
         rows = M.plist(obs["rows"], lambda r: M.pecell(r, True))
         return f"check_col unit_eqb {idx} (RTime {M.plist(secs, lambda s: M.popt(s, M.zs))}) {rows}"
+    if case["n"] > 300:
+        return None     # the oracle checks every cell of the large frames; the Coq evaluation stops at 300 rows
     tfj = obs["tf"]
     parts = []
     for col in case["cols"]:
@@ -834,6 +907,13 @@ def sanity(cases, obss):
               "family", "family_embedding_after_child", "unlabeled_target_frames", "datetime64_with_configured_format"):
         if d.get(k, 0) == 0:
             probs.append(f"{k} never drawn")
+    for r in LARGE_ROWS:
+        if d.get("large_rows", {}).get(str(r), 0) == 0:
+            probs.append(f"no frame with {r} rows")
+    for k in (["one-row-frame", "format-matches-none", "format-matches-one", "all-missing-but-one", "embedding-width-1",
+               "dup-labels-with-missing-cells"] + ["tied-categories/" + i for i in ("range", "offset", "perm", "string", "dup")]):
+        if d.get("boundaries", {}).get(k, 0) == 0:
+            probs.append(f"boundary {k} never drawn")
     for k in M.missing_forms(d, extra=["cfg=single", "cfg=dict"]):
         probs.append(f"signature form {k} never drawn")
     for k in ("direct_mapper_calls", "cache_reloads"):
